@@ -63,6 +63,16 @@ theorem exception_propagates :
   have key : ∀ f ∈ Api.placementCalls, guardedCall f.body = true := by decide
   exact execPlacement_propagates Api.setters f.body (key f hf) cbs st
 
+/-- A placement call whose callbacks invoke (any) translated setters ends by return or by an exception:
+no path of the translated API aborts or gets stuck (no `assert` is left in a setter). -/
+theorem placement_returns_or_throws :
+    ∀ f ∈ Api.placementCalls, ∀ (sg : Stage) (st : St), (∀ cb ∈ sg.cbs, cb.known Api.setters) →
+      (execPlacement Api.setters f.body sg st).out = .normal ∨ (execPlacement Api.setters f.body sg st).out = .thrown := by
+  intro f hf sg st hk
+  have k1 : ∀ f ∈ Api.placementCalls, guardedCall f.body = true := by decide
+  have k2 : ∀ f ∈ Api.setters, assertFree f.body = true := by decide
+  exact execPlacement_out Api.setters k2 f.body (k1 f hf) sg st hk
+
 /-! Non-vacuity: a concrete trace.  The callback calls `setRows` (refused, nothing written) and
 then throws; the call ends with the exception and the flag cleared. -/
 example :
